@@ -463,3 +463,112 @@ pub fn check_lookup_constraints_batch<F: RichField + Extendable<D>, const D: usi
         lut_re_poly_evals,
     )
 }
+
+// ---------------------------------------------------------------------------------------------
+// recursion (C06 / C20): in-circuit helper evaluators and FRI arithmetic next to their native twins
+
+pub fn rec_check_partial_products_circuit<F: RichField + Extendable<D>, const D: usize>(
+    builder: &mut CircuitBuilder<F, D>,
+    numerators: &[ExtensionTarget<D>],
+    denominators: &[ExtensionTarget<D>],
+    partials: &[ExtensionTarget<D>],
+    z_x: ExtensionTarget<D>,
+    z_gx: ExtensionTarget<D>,
+    max_degree: usize,
+) -> Vec<ExtensionTarget<D>> {
+    crate::util::partial_products::check_partial_products_circuit(
+        builder,
+        numerators,
+        denominators,
+        partials,
+        z_x,
+        z_gx,
+        max_degree,
+    )
+}
+
+pub fn rec_eval_l_0_circuit<F: RichField + Extendable<D>, const D: usize>(
+    builder: &mut CircuitBuilder<F, D>,
+    n: usize,
+    x: ExtensionTarget<D>,
+    x_pow_n: ExtensionTarget<D>,
+) -> ExtensionTarget<D> {
+    crate::plonk::plonk_common::eval_l_0_circuit(builder, n, x, x_pow_n)
+}
+
+pub fn rec_compute_evaluation<F: Field + Extendable<D>, const D: usize>(
+    x: F,
+    x_index_within_coset: usize,
+    arity_bits: usize,
+    evals: &[F::Extension],
+    beta: F::Extension,
+) -> F::Extension {
+    crate::fri::verifier::compute_evaluation::<F, D>(x, x_index_within_coset, arity_bits, evals, beta)
+}
+
+pub fn rec_compute_evaluation_circuit<F: RichField + Extendable<D>, const D: usize>(
+    builder: &mut CircuitBuilder<F, D>,
+    x: crate::iop::target::Target,
+    x_index_within_coset_bits: &[crate::iop::target::BoolTarget],
+    arity_bits: usize,
+    evals: &[ExtensionTarget<D>],
+    beta: ExtensionTarget<D>,
+) -> ExtensionTarget<D> {
+    builder.compute_evaluation(x, x_index_within_coset_bits, arity_bits, evals, beta)
+}
+
+/// Native `fri_combine_initial`, with the reduced openings precomputed exactly as
+/// `verify_fri_proof` does (`PrecomputedReducedOpenings::from_os_and_alpha`).
+pub fn rec_fri_combine_initial<
+    F: RichField + Extendable<D>,
+    C: GenericConfig<D, F = F>,
+    const D: usize,
+>(
+    instance: &crate::fri::structure::FriInstanceInfo<F, D>,
+    proof: &crate::fri::proof::FriInitialTreeProof<F, C::Hasher>,
+    openings: &crate::fri::structure::FriOpenings<F, D>,
+    alpha: F::Extension,
+    subgroup_x: F,
+    params: &crate::fri::FriParams,
+) -> F::Extension {
+    let pre = crate::fri::verifier::PrecomputedReducedOpenings::from_os_and_alpha(openings, alpha);
+    crate::fri::verifier::fri_combine_initial::<F, C, D>(
+        instance, proof, alpha, subgroup_x, &pre, params,
+    )
+}
+
+/// In-circuit `fri_combine_initial` (see `CircuitBuilder::verif_fri_combine_initial`).
+pub fn rec_fri_combine_initial_circuit<F: RichField + Extendable<D>, const D: usize>(
+    builder: &mut CircuitBuilder<F, D>,
+    instance: &crate::fri::structure::FriInstanceInfoTarget<D>,
+    proof: &crate::fri::proof::FriInitialTreeProofTarget,
+    openings: &crate::fri::structure::FriOpeningsTarget<D>,
+    alpha: ExtensionTarget<D>,
+    subgroup_x: crate::iop::target::Target,
+    params: &crate::fri::FriParams,
+) -> ExtensionTarget<D> {
+    builder.verif_fri_combine_initial(instance, proof, openings, alpha, subgroup_x, params)
+}
+
+pub fn rec_select_hash<F: RichField + Extendable<D>, const D: usize>(
+    builder: &mut CircuitBuilder<F, D>,
+    b: crate::iop::target::BoolTarget,
+    h0: crate::hash::hash_types::HashOutTarget,
+    h1: crate::hash::hash_types::HashOutTarget,
+) -> crate::hash::hash_types::HashOutTarget {
+    builder.select_hash(b, h0, h1)
+}
+
+pub fn rec_get_fri_instance_target<F: RichField + Extendable<D>, const D: usize>(
+    common_data: &CommonCircuitData<F, D>,
+    builder: &mut CircuitBuilder<F, D>,
+    zeta: ExtensionTarget<D>,
+) -> crate::fri::structure::FriInstanceInfoTarget<D> {
+    common_data.get_fri_instance_target(builder, zeta)
+}
+
+pub fn rec_opening_set_to_fri_openings<F: RichField + Extendable<D>, const D: usize>(
+    os: &crate::plonk::proof::OpeningSet<F, D>,
+) -> crate::fri::structure::FriOpenings<F, D> {
+    os.to_fri_openings()
+}
